@@ -162,7 +162,9 @@ func scenMenu() []scenTx {
 		{"D:k1 create n+0/1", func(s *scen) *types.Transaction {
 			// uses nonce n+1 so that it depends on C being present
 			nn := s.nonce(s.k[1]) + 1
-			return s.n.QuaiTx(s.k[1], nn, nil, big.NewInt(0), 300000, scenPrice, scenCreateData(s.k[1].Addr, nn))
+			code := scenCreateData(s.k[1].Addr, nn)
+			// the address of the new contract must be in the access list, otherwise creation fails
+			return s.n.QuaiTxAL(s.k[1], nn, nil, big.NewInt(0), 300000, scenPrice, code, types.AccessList{{Address: crypto.CreateAddress(s.k[1].Addr, nn, code, core.VZoneLoc)}})
 		}},
 		{"E:k0 convert Quai->Qi n+0", func(s *scen) *types.Transaction {
 			to := s.q[1].Addr
